@@ -405,7 +405,7 @@ B("b-drain-extracted-helper", ["C03", "C04", "C06"],
                         result = self._trigger(trigger_data)
                         if first_result is self._sentinel:
                             first_result = result
-                    except Exception:
+                    except BaseException:
                         # Whe clear the queue as we don't have an expected behavior
                         # and cannot keep processing
                         self._external_queue.clear()
@@ -419,7 +419,7 @@ B("b-drain-extracted-helper", ["C03", "C04", "C06"],
                 result = self._trigger(trigger_data)
                 if first_result is self._sentinel:
                     first_result = result
-            except Exception:
+            except BaseException:
                 self._external_queue.clear()
                 raise
         return first_result
@@ -457,11 +457,11 @@ M("c04-sync-swallow-in-activate", ["C04", "C01"], ["C04.noswallow", "C04.state",
 
         if len(result) == 0:"""))
 M("c04-sync-rollback-on-failure", ["C04"], ["C04.state"],
-  E(SYNC, """                    except Exception:
+  E(SYNC, """                    except BaseException:
                         # Whe clear the queue as we don't have an expected behavior
                         # and cannot keep processing
                         self._external_queue.clear()
-                        raise""", """                    except Exception:
+                        raise""", """                    except BaseException:
                         # Whe clear the queue as we don't have an expected behavior
                         # and cannot keep processing
                         self._external_queue.clear()
@@ -473,7 +473,7 @@ M("c04-processing-flag", ["C04"], ["C04.nosticky"],
                     self._busy = True
                     try:"""))
 M("c04-clear-only-on-notallowed", ["C04"], ["C04.clear"],
-  E(SYNC, """                    except Exception:
+  E(SYNC, """                    except BaseException:
                         # Whe clear the queue as we don't have an expected behavior
                         # and cannot keep processing
                         self._external_queue.clear()
